@@ -91,6 +91,13 @@ def goTrunc (x : Rat) : Int := if 0 ≤ x then x.floor else x.ceil
 (exact rational reading). -/
 def cpuEma (prev cur : Int) : Int := goTrunc ((prev : Rat) * (19 / 20) + (cur : Rat) * (1 - 19 / 20))
 
+/-- what the harness checks on two consecutive readings `prev → new` of the REAL sampler: `new` lies in the window the
+samples 0 … 1000 span (`cpu_step_window`), with one unit of slack for the float64 rounding the model does not follow. -/
+def samplerStepOk (prev new : Int) : Bool := decide (cpuEma prev 0 - 1 ≤ new) && decide (new ≤ cpuEma prev 1000 + 1)
+
+/-- the reading after a whole trace of samples, starting from `start`. -/
+def cpuTrace (start : Int) (curs : List Int) : Int := curs.foldl cpuEma start
+
 /-! ### ShedderGroup -/
 
 /-- the map key → shedder of the group's `syncx.ResourceManager` (association list, one entry per key). -/
@@ -127,6 +134,20 @@ namespace Site
 /-- http.StatusServiceUnavailable / http.StatusOK. -/
 def statusServiceUnavailable : Int := 503
 def statusOK : Int := 200
+
+/-- how a wrapped handler (HTTP or gRPC) ends.  Go runs deferred calls for every one of them; only after `returns` do
+the named results hold what the handler returned. -/
+inductive End where
+  | returns            -- ordinary return
+  | panicValue         -- panic with a non-error value
+  | panicError         -- panic with an error value (http.ErrAbortHandler, context.DeadlineExceeded, *runtime.PanicNilError of panic(nil))
+  | goexit             -- runtime.Goexit(): the goroutine ends, deferred calls run, nothing is returned
+  deriving Repr, DecidableEq
+
+/-- every end but the ordinary return is "abnormal": the `panics` flag of the two wrapper models. -/
+def End.abnormal : End → Bool
+  | .returns => false
+  | _ => true
 
 /-- what the wrapped HTTP handler does: first `WriteHeader(code)` (0: none), a body write, a second
 `WriteHeader(again)` (0: none), then returns or panics.  `pre` is the status the incoming writer already carries when it
